@@ -70,6 +70,27 @@ class Model:
         self.den_atoms[id(o)] = (o, T.symbolic(name, (self.dim(R), self.dim(C))), (R, C))
         return o
 
+    def matrix_on_dual(self, name, R, C):
+        """a two-form whose trial argument lives in the dual space C*: it can act on cofunctions of C* (and on weighted
+        sums of them)"""
+        Cd = self.W.call_method(C, "dual")
+        o = self.W.new("ufl.matrix.Matrix", R, Cd)
+        self.den_atoms[id(o)] = (o, T.symbolic(name, (self.dim(R), self.dim(C))), (R, Cd))
+        return o
+
+    def contractible(self, a, b):
+        """the last axis of a left operand and the first axis of a right operand range over the same basis: the
+        same space, or a space and its dual (which of the two the language accepts is its typing rule)"""
+        if self.same_space(a, b):
+            return True
+        for x, y in ((a, b), (b, a)):
+            try:
+                if self.same_space(self.W.call_method(x, "dual"), y):
+                    return True
+            except (LiftRaise, Unsupported):
+                pass
+        return False
+
     def cofunction(self, name, S):
         o = self.W.new("ufl.coefficient.Cofunction", self.W.call_method(S, "dual"))
         self.den_atoms[id(o)] = (o, T.symbolic(name, (self.dim(S),)), (S,))
@@ -237,6 +258,7 @@ def run(ctx) -> Report:
         "c(V*)": Mo.cofunction("c", V),
         "c2(V*)": Mo.cofunction("c2", V),
         "d(U*)": Mo.cofunction("d", U),
+        "D(UxV*)": Mo.matrix_on_dual("D", U, V),
         "0(V)": Mo.zero(V),
         "0(VxU)": Mo.zero(V, U),
         # variational forms (integrals): sums of them are folded into one Form by FormSum
@@ -269,10 +291,10 @@ def run(ctx) -> Report:
                 out.append((f"({n1} + {n2})", "ops", (lambda b1=b1, b2=b2: ip.binop(ast.Add, b1(), b2())), (uflsem.t_add(t1, t2), s1)))
                 out.append((f"({n1} - {n2})", "ops", (lambda b1=b1, b2=b2: ip.binop(ast.Sub, b1(), b2())), (uflsem.t_add(t1, t2.map(sym.neg)), s1)))
                 out.append((f"FormSum(({n1}, 2), ({n2}, -1))", "FormSum", (lambda b1=b1, b2=b2: W.new("ufl.form.FormSum", (b1(), 2), (b2(), -1))), (uflsem.t_add(t1.map(lambda v: sym.mul(sym.const(2), v)), t2.map(sym.neg)), s1)))
-            if s1 and s2 and Mo.same_space(s1[-1], s2[0]):
+            if s1 and s2 and Mo.contractible(s1[-1], s2[0]):
                 out.append((f"action({n1}, {n2})", "Action", (lambda b1=b1, b2=b2: W.new("ufl.action.Action", b1(), b2())), Mo.contract((t1, s1), (t2, s2))))
         for (n1, b1, (t1, s1)), (n2, b2, (t2, s2)) in itertools.product(items, vecs):
-            if s1 and Mo.same_space(s1[-1], s2[0]):
+            if s1 and Mo.contractible(s1[-1], s2[0]):
                 out.append((f"action({n1}, {n2})", "Action", (lambda b1=b1, b2=b2: W.new("ufl.action.Action", b1(), b2())), Mo.contract((t1, s1), (t2, s2))))
         out += with_identities(items)
         return out
